@@ -48,6 +48,10 @@ def make_cases(tier, seed):
         # far-apart lamps on two producers: relay chains of different networks next to each other
         text, exp = geom.far_program(seed * 1017 + i)
         add(text, "far", exp, n=3 if quick else 6)
+    for i in range(6 if quick else 40):
+        # a block of user-placed entities across the way of a relay chain, in all eight directions
+        text, exp = geom.obstacle_program(seed * 1019 + i)
+        add(text, "obstacle", exp, n=2 if quick else 4)
     for name, text, exp, props in geom.HAND_PROGRAMS:
         add(text, "hand:" + name, exp, n=2 if quick else 10)
     if not quick:
